@@ -201,11 +201,18 @@ pub fn header_palette() -> &'static Vec<MHeader> {
                 ..h()
             }, // 25
             MHeader { key_id: b"11".to_vec(), ..alg(-35) },                   // 26
-            MHeader { content_type: Some(MReg::Assigned(61)), ..h() },        // 27
+            MHeader { content_type: Some(MReg::Assigned(42)), ..h() },        // 27
         ];
-        // a header nesting a counter signature whose own protected header holds a counter signature
+        // headers that a sender can emit through struct literals and that do NOT re-encode to the
+    // same bytes after a parse (so "reuse the wire bytes" and "re-encode the parsed header" differ):
+    // a label of a typed field supplied as an extra parameter after another typed field ...
+    v.push(MHeader { key_id: b"kid".to_vec(), rest: vec![(MLabel::Int(1), MValue::Int(-3))], ..h() }); // 28
+    // ... and an extra parameter whose value is a small bignum (tag 2), which the CBOR layer
+    // folds into a plain integer when parsing
+    v.push(MHeader { rest: vec![(MLabel::Int(1000), MValue::Tag(2, Box::new(MValue::Bytes(vec![1]))))], ..h() }); // 29
+    // a header nesting a counter signature whose own protected header holds a counter signature
         let inner = MHeader { counter_signatures: vec![sig(alg(-7), h(), b"deep")], ..h() };
-        v.push(MHeader { counter_signatures: vec![sig(inner, h(), b"outer")], ..h() }); // 28
+        v.push(MHeader { counter_signatures: vec![sig(inner, h(), b"outer")], ..h() }); // 30
         v
     })
 }
